@@ -260,6 +260,10 @@ def run_t1(rep: Report, modnames, pid=None, quick=True, monitor_cases=200):
             ):
                 # modular proof: a callee broke *its* contract (reported there)
                 pass
+            elif viol is not None and viol.get("clause") in c.ensures_rt:
+                # a clause outside the prover's subset (checked only by the monitor)
+                sig = f"T3 {c.target} run-time-only contract clause violated: {viol['clause']}"
+                rep.violation(sig, {"function": c.target, "counterexample": viol})
             elif viol is not None:
                 # proof went through but the real function violates the contract
                 # natively: the encoder disagrees with CPython -> checker bug
